@@ -10,7 +10,8 @@ import sys
 import time
 from concurrent.futures import ThreadPoolExecutor
 
-VERIF = "/verif"
+# the framework root: /verif as registered; a snapshot (vp run) works from its own copy
+VERIF = os.environ.get("VERIF_ROOT") or os.path.dirname(os.path.dirname(os.path.abspath(__file__)))
 REPO = "/repo"
 WORK = os.path.join(VERIF, "work")
 TARGET = os.path.join(VERIF, "target")
@@ -30,6 +31,7 @@ def env_base():
     e = dict(os.environ)
     e["CARGO_NET_OFFLINE"] = "true"
     e["RUST_BACKTRACE"] = "0"
+    e["VERIF_ROOT"] = VERIF
     e.pop("RUSTFLAGS", None)
     e.pop("CARGO_TARGET_DIR", None)
     return e
